@@ -65,6 +65,8 @@ def run(prop, tier, seed, nworkers, only=None):
     env["PYTHONPATH"] = VERIF_DIR + os.pathsep + env.get("PYTHONPATH", "")
     env.pop("STEPUP_ROOT", None)
     procs = []
+    results = []
+    errors = []
     nworkers = min(nworkers, getattr(mod, "MAX_WORKERS", nworkers))
     for w in range(nworkers):
         out = os.path.join(outdir, f"w{w}.json")
@@ -76,17 +78,23 @@ def run(prop, tier, seed, nworkers, only=None):
             cmd += ["--only", only]
         log = open(os.path.join(outdir, f"w{w}.log"), "w")
         procs.append((subprocess.Popen(cmd, cwd=VERIF_DIR, env=env, stdout=log, stderr=log), out, log))
-    results = []
-    errors = []
+    budget = float(os.environ.get("VERIF_TIMEOUT_S", "2400" if tier == "quick" else "28800"))
+    deadline = t0 + budget
     for w, (p, out, log) in enumerate(procs):
-        p.wait()
+        try:
+            p.wait(timeout=max(1.0, deadline - time.time()))
+        except subprocess.TimeoutExpired:
+            # Inconclusive, never a violation: the worker is killed and reported as harness error.
+            p.kill()
+            p.wait()
+            errors.append(f"worker {w} exceeded the time budget of {budget:.0f}s (inconclusive)")
         log.close()
         if os.path.exists(out):
             with open(out) as fh:
                 results.append(json.load(fh))
             if results[-1]["error"]:
                 errors.append(f"worker {w}: {results[-1]['error']}")
-        else:
+        elif not any(e.startswith(f"worker {w} ") for e in errors):
             with open(log.name) as fh:
                 tail = fh.read()[-3000:]
             errors.append(f"worker {w} died (exit {p.returncode}) without result:\n{tail}")
